@@ -374,6 +374,41 @@ func c18Walk(body *ast.BlockStmt, recv string, methods map[string]*ast.FuncDecl,
 	return evs
 }
 
+// c18Flat returns the statements/expressions of a body in source (pre-)order
+// with calls to same-receiver helper methods (`recv.<name>(…)`, not in
+// `stop`) replaced by the helper's body, `levels` deep.
+func c18Flat(body *ast.BlockStmt, recv string, methods map[string]*ast.FuncDecl, stop map[string]bool, levels int) []ast.Node {
+	var out []ast.Node
+	var walk func(n ast.Node, lv int)
+	walk = func(n ast.Node, lv int) {
+		ast.Inspect(n, func(k ast.Node) bool {
+			if k == nil {
+				return false
+			}
+			if _, ok := k.(*ast.FuncLit); ok {
+				return false
+			}
+			out = append(out, k)
+			if c, ok := k.(*ast.CallExpr); ok && lv > 0 {
+				f := exprString(c.Fun)
+				if strings.HasPrefix(f, recv+".") {
+					name := strings.TrimPrefix(f, recv+".")
+					if fd, ok := methods[name]; ok && !stop[name] && !strings.Contains(name, ".") {
+						for _, a := range c.Args {
+							walk(a, lv)
+						}
+						walk(fd.Body, lv-1)
+						return false
+					}
+				}
+			}
+			return true
+		})
+	}
+	walk(body, levels)
+	return out
+}
+
 func c18First(evs []c18Event, kind string) int {
 	for i, e := range evs {
 		if e.kind == kind {
@@ -791,6 +826,8 @@ func genC18Sem() {
 	l.p("def restoreSets : List String := %s", leanStrList(rs))
 
 	// ================= reconnect body =================
+	named0 := map[string]bool{"closeStream": true, "connectServerStream": true, "checkPendingBatch": true,
+		"StartAccountSubscription": true, "keepSubscriptions": true, "HandleServerShutdown": true}
 	named := map[string]bool{"closeStream": true, "connectServerStream": true, "checkPendingBatch": true,
 		"StartAccountSubscription": true, "keepSubscriptions": true, "HandleServerShutdown": true}
 	evs := c18Walk(body.Body, "c", methods, named, 2)
@@ -871,67 +908,52 @@ func genC18Sem() {
 	l.p("/-- a failing checkPendingBatch empties the map and keeps every account before returning -/")
 	l.p("def batchFailureKeeps : Bool := %s", c18Bool(batchFailKeeps))
 
-	// HandleServerShutdown as a loop that starts over while dirty
+	// HandleServerShutdown as a loop that starts over while dirty (the
+	// bookkeeping may live in same-receiver helpers)
 	incBefore, decBeforeRet, dirtyRestart := false, false, false
 	if bodyName != "" {
 		var loopH *ast.ForStmt
 		for _, st := range hss.Body.List {
 			if f, ok := st.(*ast.ForStmt); ok {
 				loopH = f
+				break
 			}
-			if loopH == nil && strings.Contains(c18NodeString(st), "++") {
-				incBefore = true
-			}
-			if ast.Node(st) != ast.Node(loopH) && loopH == nil {
-				ast.Inspect(st, func(n ast.Node) bool {
-					if i, ok := n.(*ast.IncDecStmt); ok && i.Tok == token.INC {
-						incBefore = true
-					}
-					return true
-				})
+			for _, n := range c18Flat(&ast.BlockStmt{List: []ast.Stmt{st}}, "c", methods, named0, 1) {
+				if i, ok := n.(*ast.IncDecStmt); ok && i.Tok == token.INC {
+					incBefore = true
+				}
 			}
 		}
 		if loopH != nil {
-			callsBody := false
-			ast.Inspect(loopH.Body, func(n ast.Node) bool {
+			callsBody, reset, dec, ret := false, false, false, false
+			stop := map[string]bool{bodyName: true}
+			for k := range named0 {
+				stop[k] = true
+			}
+			for _, n := range c18Flat(loopH.Body, "c", methods, stop, 1) {
 				switch x := n.(type) {
 				case *ast.CallExpr:
 					if exprString(x.Fun) == "c."+bodyName {
 						callsBody = true
 					}
 				case *ast.IfStmt:
-					// if <flag> { <flag> = false; …; continue }
+					// if <flag> { <flag> = false; … }
 					flag := c18Canon(x.Cond, c18Env{})
-					reset, cont := false, false
 					for _, b := range x.Body.List {
 						if as, ok := b.(*ast.AssignStmt); ok && len(as.Lhs) == 1 && exprString(as.Lhs[0]) == flag && exprString(as.Rhs[0]) == "false" {
 							reset = true
 						}
-						if br, ok := b.(*ast.BranchStmt); ok && br.Tok == token.CONTINUE {
-							cont = true
-						}
 					}
-					if reset && cont && callsBody {
-						dirtyRestart = true
-					}
-				}
-				return true
-			})
-			// a decrement before the return inside the loop
-			sawDec := false
-			ast.Inspect(loopH.Body, func(n ast.Node) bool {
-				switch x := n.(type) {
 				case *ast.IncDecStmt:
 					if x.Tok == token.DEC {
-						sawDec = true
+						dec = true
 					}
 				case *ast.ReturnStmt:
-					if sawDec {
-						decBeforeRet = true
-					}
+					ret = true
 				}
-				return true
-			})
+			}
+			dirtyRestart = callsBody && reset && loopH.Cond == nil
+			decBeforeRet = dec && ret
 		}
 	}
 	l.p("/-- HandleServerShutdown counts itself, calls the reconnect body in a loop that starts over while the dirty flag is")
@@ -1035,31 +1057,41 @@ func genC18Sem() {
 	deferRestore := false
 	inline := 0
 	deletes := 0
-	ast.Inspect(caa.Body, func(n ast.Node) bool {
+	handles := false
+	caaStop := map[string]bool{"HandleServerShutdown": true, "connectServerStream": true, "checkPendingBatch": true,
+		"SendAuctionMessage": true, "StartAccountSubscription": true}
+	for _, n := range c18Flat(caa.Body, "c", methods, caaStop, 1) {
 		switch x := n.(type) {
 		case *ast.DeferStmt:
 			if exprString(x.Call) == "c.errChanSwitch.Restore()" && x.Pos() > pDivert {
 				deferRestore = true
 			}
-		case *ast.IfStmt:
-			if strings.Contains(c18Canon(x.Cond, c18Env{}), "ErrServerErrored") {
-				ast.Inspect(x.Body, func(m ast.Node) bool {
-					if r, ok := m.(*ast.ReturnStmt); ok && strings.Contains(c18NodeString(r), "c.HandleServerShutdown(nil)") {
-						inline++
-					}
-					return true
-				})
+		case *ast.BinaryExpr:
+			// <x> == ErrServerErrored / <x> != ErrServerErrored
+			if (x.Op == token.EQL || x.Op == token.NEQ) &&
+				(exprString(x.X) == "ErrServerErrored" || exprString(x.Y) == "ErrServerErrored") {
+				inline++
 			}
 		case *ast.CallExpr:
-			if exprString(x.Fun) == "delete" && len(x.Args) == 2 && exprString(x.Args[0]) == "c.subscribedAccts" {
+			f := exprString(x.Fun)
+			if f == "errors.Is" && len(x.Args) == 2 && exprString(x.Args[1]) == "ErrServerErrored" {
+				inline++
+			}
+			if f == "c.HandleServerShutdown" && len(x.Args) == 1 && exprString(x.Args[0]) == "nil" {
+				handles = true
+			}
+			if f == "delete" && len(x.Args) == 2 && exprString(x.Args[0]) == "c.subscribedAccts" {
 				deletes++
 			}
 		}
-		return true
-	})
+	}
+	if !handles {
+		inline = 0
+	}
 	l.p("/-- Divert < map insertion < authenticate, Restore deferred after Divert -/")
 	l.p("def subscribeOrder : Bool := %s", c18Bool(pDivert != token.NoPos && pDivert < pInsert && pInsert < pAuth && deferRestore))
-	l.p("/-- number of `return …, c.HandleServerShutdown(nil)` guarded by a test for ErrServerErrored -/")
+	l.p("/-- number of tests for ErrServerErrored (==, !=, errors.Is) in connectAndAuthenticate and its same-receiver helpers,")
+	l.p("0 unless HandleServerShutdown(nil) is called there -/")
 	l.p("def inlineReconnects : Nat := %d", inline)
 	l.p("/-- connectAndAuthenticate never removes an entry from the map -/")
 	l.p("def subscribeNeverDeletes : Bool := %s", c18Bool(deletes == 0))
@@ -1074,7 +1106,7 @@ func genC18Sem() {
 	commitToField, hashArgs, signArgs := false, false, false
 	copies := map[string]string{} // dst local -> source expr of copy(dst[:], src)
 	hashVar := ""
-	ast.Inspect(auth.Body, func(n ast.Node) bool {
+	for _, n := range c18Flat(auth.Body, "s", methods, map[string]bool{"sendMsg": true}, 1) {
 		switch x := n.(type) {
 		case *ast.AssignStmt:
 			if len(x.Rhs) == 1 {
@@ -1107,8 +1139,7 @@ func genC18Sem() {
 				}
 			}
 		}
-		return true
-	})
+	}
 	l.p("/-- order of the hashing / signing / sending calls of authenticate -/")
 	l.p("def authenticateCalls : List String := %s", leanStrList(calls))
 	l.p("def commitStoredInSubscription : Bool := %s", c18Bool(commitToField))
